@@ -143,7 +143,10 @@ Definition c_op_ok (n : net) : bool :=
   | OpSelect idx => forallb (fun b => (0 <=? b) && (b <? W 0%nat)) idx
                     && (wd <=? Z.of_nat (length idx))
   | OpMemRd m => (wd <=? mem_dataw m) && (W 0%nat <=? 64)       (* the key is addr[0] *)
+                 && (match find_mem (mems nl) m with Some _ => true | None => false end)
   | OpMemWr m => (W 0%nat <=? 64) && (W 1%nat =? mem_dataw m) && (W 2%nat =? 1)
+                 && (match find_mem (mems nl) m with Some mm => match mrom mm with None => true | _ => false end
+                                                 | None => false end)
   | _ => true
   end.
 
